@@ -13,7 +13,8 @@ leg A  pixel -> sky -> pixel.  ``P = build(spec)``; ``S1 = P.to_sky(w)``; ``P2 =
              1e-9 px + 1e-6 x (distance from the reference pixel + size of the region) + R,
          R = 64 ulp(360 deg) / scale being the pixel equivalent of the rounding of a world longitude
          stored in degrees (1.3e-6 px at 0.01 arcsec/px, 3.6e-11 px at 0.1 deg/px);
-         every length within 1e-6 relative, the angle within 1e-6 deg modulo 360, text string equal,
+         every length within 1e-6 relative, the angle within 1e-6 deg modulo 180 (all shapes with an angle are
+         symmetric under a half turn, so that is the same geometry), text string equal,
          operator of a compound identical, operands recursively (component-wise conversion);
        * meta and visual of S1 AND of P2 are dict-equal to the original's (include flag included).
          Text regions with a ``rotation`` visual: the sky value differs by design (it is not judged,
@@ -25,7 +26,7 @@ leg B  sky -> pixel -> sky.  ``S0`` is built by the harness from longitudes / la
        angular sizes = pixels x cdelt, the same angle, the same meta/visual;  ``P3 = S0.to_pixel(w)``;
        ``S3 = P3.to_sky(w)``.  Classes as above; every position of S3 within
              1e-9 arcsec + 1e-6 x (angular distance from crval + angular size) + 64 ulp(360 deg)
-       (own Vincenty separation) of S0's, lengths 1e-6 relative, angle 1e-6 deg mod 360; meta/visual of P3
+       (own Vincenty separation) of S0's, lengths 1e-6 relative, angle 1e-6 deg mod 180; meta/visual of P3
        and S3 dict-equal to S0's (text rotation as above).  If S3's coordinates come back in another
        frame they are transformed to S0's frame by astropy first (the statement does not speak about frames).
 membership  sky positions ``sc = wcs.pixel_to_world(q)`` for C01's shape-frame query lattice q of the spec.
@@ -384,9 +385,11 @@ def _cmp_len(cx, leg, what, got, want):
 
 
 def _cmp_angle(cx, leg, what, got, want):
-    d = W.angle_diff_deg(got, want)
+    # ellipses, rectangles and their annuli are symmetric under a half turn: an angle that differs by 180 deg
+    # describes the same geometry, which is all the statement asks for ("same geometry")
+    d = W.angle_diff_deg(got, want, 180.0)
     if not abs(d) <= 1e-6:
-        cx.bad('angle_wrong', f'{leg}: {what} is {got!r} deg, originally {want!r} deg (difference {d:.6g} deg modulo 360 > 1e-6)', want, got)
+        cx.bad('angle_wrong', f'{leg}: {what} is {got!r} deg, originally {want!r} deg (difference {d:.6g} deg modulo 180 > 1e-6)', want, got)
 
 
 def cmp_pixel(cx, reg, spec, ws, leg, path='P2'):
